@@ -39,11 +39,13 @@ class Run:
 
         def local(frame, event, arg):
             if event == "line":
+                self._yield(tid, (frame.f_code.co_name, frame.f_lineno))
+                # the line runs now, with no other worker running until the next yield point: what on_event reads
+                # of the shared state is what the line is about to see
                 if self.on_event is not None:
                     lab = self.on_event(frame)
                     if lab is not None:
                         self.events.append((tid, lab))
-                self._yield(tid, (frame.f_code.co_name, frame.f_lineno))
             return local
 
         def tracer(frame, event, arg):
